@@ -202,6 +202,23 @@ std::string World::bus_side_name(int client) {
   return "";
 }
 
+bool World::accepted(int client) {
+  for (auto &kv : conn_to_client) if (kv.second == client) return true;
+  return false;
+}
+
+int World::rule_count(int client) {
+  for (auto &kv : conn_to_client)
+    if (kv.second == client && live_conns.count(kv.first)) return bus_connection_get_n_match_rules(kv.first);
+  return -1;
+}
+
+int World::names_owned(int client) {
+  for (auto &kv : conn_to_client)
+    if (kv.second == client && live_conns.count(kv.first)) return bus_connection_get_n_services_owned(kv.first);
+  return -1;
+}
+
 int World::n_active() { return bus_connections_get_n_active(bus_context_get_connections(ctx)); }
 int World::n_incomplete() { return bus_connections_get_n_incomplete(bus_context_get_connections(ctx)); }
 
@@ -406,10 +423,10 @@ void World::quiesce() {
     }
     for (auto &c : clients) {
       if (c.closed || !c.connected || c.stalled) continue;
-      size_t before = c.got.size() + c.auth_lines.size() + c.in.size();
+      uint64_t before = c.bytes_in;
       bool eof_before = c.saw_eof;
       drain(c.idx);
-      if (c.got.size() + c.auth_lines.size() + c.in.size() != before || eof_before != c.saw_eof) progress = true;
+      if (c.bytes_in != before || eof_before != c.saw_eof) progress = true;
     }
     if (!progress) break;
   }
